@@ -22,14 +22,16 @@ package mock
 // ---- the in-process client transport (C10) ---------------------------------------------------------
 // the worker delivers exactly one outcome on a channel with room for it (it never blocks, so it
 // cannot leak) and closes the channel; the caller waits on the call's context as well
+// (assumed) the registered handler: it does not know this call's private result channel
 //@ func (*agent).Handler
 //@   havoc
-//@   modifies ghost.*
+//@   modifies ghost.handled, ghost.handled_req, ghost.handle_resp, ghost.handle_err, ghost.npanic_handle, ghost.dict_has[*], ghost.dict_int[*], ghost.held[*]
 
 //@ func (*Transport).Transport$1
 //@   prop C10
 //@   havoc
 //@   stable ch
+//@   requires ghost.chanclosed[ch] == 0
 //@   modifies ghost.*
 //@   ensures [delivers_exactly_one_outcome] ghost.chansent[ch] == old(ghost.chansent[ch]) + 1
 //@   ensures [closes_the_channel] ghost.chanclosed[ch] == 1
